@@ -26,8 +26,9 @@ vars == <<t, last>>
 Data == 1..D
 
 (* fixed foreign source tree: a(b), b'  -- b' is a clone of b *)
+SrcB == IF DefDid(1) = DefDid(2) THEN 3 ELSE 2    \* second data value of the source tree
 SrcPlain == Derive([n |-> 3, par |-> <<0, 1, 0>>, kids |-> << <<2>>, <<>>, <<>> >>, top |-> <<1, 3>>,
-              dat |-> <<1, 2, 2>>, did |-> <<DefDid(1), DefDid(2), DefDid(2)>>,
+              dat |-> <<1, SrcB, SrcB>>, did |-> <<DefDid(1), DefDid(SrcB), DefDid(SrcB)>>,
               knd |-> <<0, 0, 0>>, meta |-> [i \in 1..3 |-> EmptyMeta], reg |-> {}, idx |-> <<>>, typed |-> FALSE])
 SrcTyped == [SrcPlain EXCEPT !.knd = <<1, 2, 1>>, !.typed = TRUE]
 Src == IF Typed THEN SrcTyped ELSE SrcPlain
@@ -55,7 +56,7 @@ Ops(S) ==
       UNION {{[name |-> "add_child", p |-> p, d |-> d, xid |-> x, k |-> k, pos |-> pos] :
                  d \in Data, x \in Xids, k \in Kinds, pos \in Positions(S, p)} : p \in Parents(S)}
       \cup {[name |-> nm, p |-> p, d |-> d, xid |-> 0, k |-> k] :
-          nm \in {"append_child", "prepend_child"}, p \in Parents(S), d \in Data, k \in Kinds}
+          nm \in {"append_child", "prepend_child"}, p \in Live(S), d \in Data, k \in Kinds}   \* Node methods only
       \cup {[name |-> nm, x |-> x, d |-> d, xid |-> 0] :
           nm \in {"prepend_sibling", "append_sibling"}, x \in Live(S), d \in Data}
     ELSE {})
@@ -81,9 +82,11 @@ Ops(S) ==
              pp \in Parents(S) \X BOOLEAN}
       \cup {[name |-> "tree_copy_to", p |-> p, deep |-> dp] :
           p \in Parents(S), dp \in {b \in BOOLEAN : Room(S) >= (IF b THEN Src.n ELSE Len(Src.top))}}
-      \cup UNION {{[name |-> "copy_children_to", p |-> p, src |-> "T", x |-> x, deep |-> dp] :
-                      p \in Parents(S),
-                      dp \in {b \in BOOLEAN : Room(S) >= (IF b THEN Cardinality(Desc(S, x)) ELSE Len(S.kids[x]))}} :
+      \cup UNION {{[name |-> "copy_children_to", p |-> pd[1], src |-> "T", x |-> x, deep |-> pd[2]] :
+                      \* deep copies of a child list into the copied branch itself are not driven (doc-silent)
+                      pd \in {q \in Parents(S) \X BOOLEAN :
+                                 /\ Room(S) >= (IF q[2] THEN Cardinality(Desc(S, x)) ELSE Len(S.kids[x]))
+                                 /\ (q[2] => q[1] \notin Desc(S, x))}} :
                    x \in Live(S)}
     ELSE {})
    \cup
